@@ -35,11 +35,12 @@ from vf import core
 from vf.coqlit import cbool, clist, cnat, cstr
 
 THEOREMS = [
-    "C17_generated_shapes", "C17_generated_defaults", "C17_closed_means_durable_partial",
+    "C17_generated_shapes", "C17_generated_defaults", "C17_closed_means_durable_partial", "C17_closed_means_durable_full_refuted",
     "C17_sqlite_order_is_permutation", "C17_refuted_stream_empty_close", "C17_refuted_avro_flush_before_write",
     "C17_empty_output_valid", "C17_empty_output_valid_stream_flush_close", "C17_split",
     "C17_split_bare_close_partial", "C17_refuted_split_bare_close", "C17_split_part_names_distinct",
-    "C17_note_split_suffix_overflow", "C17_rotation_partial", "C17_refuted_rotation_same_second",
+    "C17_note_split_suffix_overflow", "C17_rotation_partial", "C17_rotation_distinct_stamps",
+    "C17_refuted_rotation_same_second",
 ]
 
 UTC = _dt.timezone.utc
@@ -1217,14 +1218,16 @@ def run(ctx):
     if failing and not reported:
         i = owner[failing[0]]
         if i is None:
-            ctx.violation("SplitWriter._next_path disagrees with model part_name: %s" % terms[failing[0]][:200],
-                          dict(kind="next-path", term=terms[failing[0]]))
+            ctx.violation("SplitWriter._next_path disagrees with model part_name (it agrees with pathlib): %s" % terms[failing[0]][:200],
+                          dict(kind="next-path", term=terms[failing[0]]), no_input=True)
         else:
             c = cases[i]
-            ctx.violation("model/Writers.v and the implementation disagree on %d of %d comparisons, first: %s -> outcomes %s, on disk %s" % (
+            # the property's own oracle holds on this case (else it was reported above): the tie is broken, no failing input
+            ctx.violation("model/Writers.v and the implementation disagree on %d of %d comparisons, first: %s -> outcomes %s, on disk %s; "
+                          "the property itself holds on that case" % (
                 len(failing), len(terms), _describe(c.meta), c.meta.get("outcomes"),
                 json.dumps(c.meta.get("after_del") or c.meta.get("parts") or c.meta.get("files"), default=repr)[:300]),
-                dict(c.meta, correspondence="C17 history vs model/Writers.v", term=terms[failing[0]][:2000]))
+                dict(c.meta, correspondence="C17 history vs model/Writers.v", term=terms[failing[0]][:2000]), no_input=True)
     for c in cases[:: max(1, len(cases) // 6)]:
         ctx.sample({k: v for k, v in c.meta.items() if k in ("kind", "target", "history", "count", "suffix_length", "via",
                                                                "template", "ops", "clock", "pre", "outcomes", "files", "after_del")})
